@@ -5,10 +5,10 @@
   Model: PdshVerif/Hostlist/{Basic,Push,Parse,Iter,Cli}.lean (hostlist.c, opt.c wcoll_expand,
   split.c).  Spec: PdshVerif/Hostlist/Spec.lean (`expand₁`, `expand₂`, written without the model).
 
-  What is proved: the coalescing push, the width rewriting, the per-word parser and the iterator
-  of the model, for ALL inputs in the stated domains.  What is not: the tokenizer on rendered text
-  (`tokens hlSep (render e) = words`) and the second-bracket re-expansion are tied to the spec by
-  the correspondence only (exhaustively for short strings in the thorough tier).
+  What is proved: the coalescing push, the width rewriting, the tokenizer on rendered text, the
+  per-word parser (together: `create_render`, string level) and the iterator of the model, for ALL
+  inputs in the stated domains.  What is not: the second-bracket re-expansion of `wcoll_expand`
+  (`expand₂`) is tied to the spec by the correspondence only (real pdsh binary vs model vs spec).
   Domain restrictions that are DEFECTS of the code are explicit hypotheses (`wordDom`, `Narrow`)
   and each has a `decide`d witness theorem showing the statement fails without it.
 -/
@@ -16,6 +16,7 @@ import PdshVerif.Hostlist.Lemmas
 import PdshVerif.Hostlist.LemmasParse
 import PdshVerif.Hostlist.LemmasIter
 import PdshVerif.Hostlist.LemmasCreate
+import PdshVerif.Hostlist.LemmasTok
 
 namespace PdshVerif.C01
 open PdshVerif.Hostlist PdshVerif.Gen
@@ -80,6 +81,26 @@ theorem create_words (e : Spec.Expr) (hw : Spec.WF e = true) (hd : ∀ w ∈ e, 
   rw [HL.new_hosts, List.nil_append] at h3
   exact ⟨st, h1, h2, h3, by rw [HL.count, h2.2, h3]⟩
 
+/-- STRING LEVEL.  `hostlist_create` on the TEXT of a well-formed expression — words rendered as
+    `pre[lo-hi,..]suffix`, separated by arbitrary non-empty runs of `,` blank tab, optional runs at
+    both ends — returns a list that denotes exactly the mathematical expansion `expand₁`. -/
+theorem create_render (lead : Str) (items : List (Spec.Word × Str))
+    (hl : lead.all Spec.sepChar = true) (hok : Spec.sepsOK items = true)
+    (hw : ∀ p ∈ items, p.1.WF = true) (hd : ∀ p ∈ items, wordDom p.1) :
+    ∃ h, create (Spec.render lead items) = .ok h ∧ h.Good ∧
+      h.hosts = Spec.expand₁ (items.map (·.1)) ∧
+      h.count = (Spec.expand₁ (items.map (·.1))).length := by
+  obtain ⟨st, h1, h2, h3⟩ := createToks_words (items.map (·.1)) ⟨HL.new, 0⟩
+    (fun w hw' => by obtain ⟨p, hp, rfl⟩ := List.mem_map.mp hw'; exact hw p hp)
+    (fun w hw' => by obtain ⟨p, hp, rfl⟩ := List.mem_map.mp hw'; exact hd p hp) HL.new_good
+  rw [HL.new_hosts, List.nil_append] at h3
+  refine ⟨st.hl, ?_, h2, h3, by rw [HL.count, h2.2, h3]⟩
+  unfold create createFrom
+  rw [tokens_render items lead hl hok hw]
+  have : (items.map fun p => Spec.renderWord p.1) = (items.map (·.1)).map Spec.renderWord := by
+    rw [List.map_map]; rfl
+  rw [this, h1]
+
 /-- ITERATION.  A fresh iterator (`hostlist_next` until NULL — what `dsh()` walks) over a good
     list whose printed numbers have at most 14 characters yields exactly the denoted hosts. -/
 theorem iter_all (h : HL) (hg : h.Good) (hn : ∀ r ∈ h.ranges.toList, r.Narrow) (n : Nat)
@@ -123,16 +144,25 @@ end PdshVerif.C01
 section Examples
 open PdshVerif.Hostlist PdshVerif.Hostlist.Spec
 
-def exampleExpr : Expr :=
-  [.br "foo".toList [⟨"9".toList, some "11".toList⟩, ⟨"007".toList, none⟩] "-".toList
-      (some ([⟨"0".toList, some "1".toList⟩], [])),
-   .plain "12".toList, .plain "a3".toList]
+def exW1 : Word :=
+  .br "foo".toList [⟨"9".toList, some "11".toList⟩, ⟨"007".toList, none⟩] "-".toList
+      (some ([⟨"0".toList, some "1".toList⟩], []))
+def exW2 : Word := .plain "12".toList
+def exW3 : Word := .plain "a3".toList
+def exampleExpr : Expr := [exW1, exW2, exW3]
 
+/-- its text with a mix of separator runs -/
+def exampleItems : List (Word × Spec.Str) :=
+  [(exW1, ", ".toList), (exW2, " ".toList), (exW3, [])]
+
+example : String.ofList (render [] exampleItems) = "foo[9-11,007]-[0-1], 12 a3" := by decide
+example : sepsOK exampleItems = true := by decide
 example : WF exampleExpr = true := by decide
 example : ∀ w ∈ exampleExpr, wordDom w := by
   intro w hw
   simp only [exampleExpr, List.mem_cons, List.not_mem_nil, or_false] at hw
   rcases hw with rfl | rfl | rfl <;> decide
+example : exampleItems.map (·.1) = exampleExpr := rfl
 example : (expand₁ exampleExpr).map String.ofList =
     ["foo9-[0-1]", "foo10-[0-1]", "foo11-[0-1]", "foo007-[0-1]", "12", "a3"] := by decide
 example : (expand₂ exampleExpr).map String.ofList =
